@@ -288,6 +288,36 @@ pub fn handshake(c: &mut Ctx, su: &Setup, p_win: u16) -> Result<bool, Violation>
     if su.victim_listens {
         let port = c.v_port;
         guard("tcp::listen", || c.node.sockets.get_mut::<tcp::Socket>(c.h).listen(port).unwrap())?;
+        // sometimes another peer's connection attempt is cut short by a reset first: the listener goes back to
+        // LISTEN (without being re-armed by the application) and must not keep anything it negotiated
+        if c.tape.draw(6) == 5 {
+            let real_port = c.p_port;
+            c.p_port = real_port.wrapping_add(7).max(1024);
+            let other_ws = if c.p_ws.is_some() { None } else { Some(7) };
+            let other_mss = if c.p_mss == Some(1460) { Some(200) } else { Some(1460) };
+            let syn = Tcp { seq: c.irs.wrapping_add(50_000), ack: 0, flags: F_SYN, win: 65535, opts: TcpOpts { mss: other_mss, wscale: other_ws, sack_perm: true, sack: vec![], ts: None }, ..Tcp::default() };
+            let f = c.seg(&syn);
+            c.log(|| "P' tx SYN (attempt that will be reset)".into());
+            c.inject(f)?;
+            c.poll()?;
+            if let Some(iss) = c.iss_v {
+                let rst = Tcp { seq: c.irs.wrapping_add(50_001), ack: iss.wrapping_add(1), flags: F_RST | F_ACK, win: 0, ..Tcp::default() };
+                let f = c.seg(&rst);
+                c.log(|| "P' tx RST".into());
+                c.inject(f)?;
+                c.poll()?;
+            }
+            c.stats.inc("peer.aborted-handshake-before-the-real-one");
+            c.p_port = real_port;
+            c.iss_v = None;
+            c.v_edge = None;
+            c.v_edge_last = None;
+            c.v_syn_win = None;
+            c.now += 1_000_000;
+            if c.sock().state() != tcp::State::Listen {
+                return Ok(false);
+            }
+        }
         let syn = Tcp { seq: c.irs, ack: 0, flags: F_SYN, win: p_win, opts: TcpOpts { mss: c.p_mss, wscale: c.p_ws, sack_perm: c.tape.draw(2) == 1, sack: vec![], ts }, ..Tcp::default() };
         let f = c.seg(&syn);
         c.log(|| "P tx SYN".into());
